@@ -560,6 +560,15 @@ class Tdf:
 
         comment = comment if comment is not None else old_entry.comment
 
+        # a failed replace must not lose the old block: check everything
+        # add_block could refuse before removing anything
+        BTSString.write(256, comment)
+        newBlock._write(BytesIO())
+        if any(
+            entry.type == BlockType.unusedSlot for entry in self.entries[: len(self)]
+        ):
+            raise IOError("All unused slots must be at the end of the file")
+
         self.remove_block(newBlock.type)
         self.add_block(newBlock, comment)
 
